@@ -7,6 +7,8 @@ From Coq Require Import String.
 Local Open Scope string_scope.
 Local Open Scope Z_scope.
 
+Definition oT : nat -> bool := fun _ => true.
+Definition oF : nat -> bool := fun _ => false.
 Definition sts : list vstate :=
   [mkV None None; mkV None (Some 1); mkV None (Some 2); mkV (Some [1000]) (Some 1);
    mkV (Some [1000; 1001]) (Some 2); mkV (Some [7]) (Some 1); mkV (Some [1000]) None].
@@ -32,9 +34,23 @@ Definition diffY (gen : input -> bool * bool) (model : input -> bool) :=
 
 Definition show {A} (o : option A) (f : A -> (result * bool * result)) := match o with Some a => Some (a, f a) | None => None end.
 
-Eval vm_compute in ("StreamingDetector._validate_X", show (diffX StreamingDetector_validate_X validate_X_stream)
-                      (fun sx => (StreamingDetector_validate_X (fst sx) (snd sx), validate_X_stream (fst sx) (snd sx)))).
-Eval vm_compute in ("BatchDetector._validate_X", show (diffX BatchDetector_validate_X validate_X_batch)
-                      (fun sx => (BatchDetector_validate_X (fst sx) (snd sx), validate_X_batch (fst sx) (snd sx)))).
-Eval vm_compute in ("StreamingDetector._validate_y", diffY StreamingDetector_validate_y validate_y_stream).
-Eval vm_compute in ("BatchDetector._validate_y", diffY BatchDetector_validate_y validate_y_batch).
+Eval vm_compute in ("StreamingDetector._validate_X", show (diffX (StreamingDetector_validate_X oT) validate_X_stream)
+                      (fun sx => ((StreamingDetector_validate_X oT) (fst sx) (snd sx), validate_X_stream (fst sx) (snd sx)))).
+Eval vm_compute in ("BatchDetector._validate_X", show (diffX (BatchDetector_validate_X oT) validate_X_batch)
+                      (fun sx => ((BatchDetector_validate_X oT) (fst sx) (snd sx), validate_X_batch (fst sx) (snd sx)))).
+Eval vm_compute in ("StreamingDetector._validate_y", diffY (StreamingDetector_validate_y oT) validate_y_stream).
+Eval vm_compute in ("BatchDetector._validate_y", diffY (BatchDetector_validate_y oT) validate_y_batch).
+Eval vm_compute in ("ADWIN.update", show (diffX (ADWIN_update_validate oT) validate_univariate)
+                      (fun sx => ((ADWIN_update_validate oT) (fst sx) (snd sx), validate_univariate (fst sx) (snd sx)))).
+Eval vm_compute in ("CUSUM.update", show (diffX (CUSUM_update_validate oT) validate_univariate)
+                      (fun sx => ((CUSUM_update_validate oT) (fst sx) (snd sx), validate_univariate (fst sx) (snd sx)))).
+Eval vm_compute in ("PageHinkley.update", show (diffX (PageHinkley_update_validate oT) validate_univariate)
+                      (fun sx => ((PageHinkley_update_validate oT) (fst sx) (snd sx), validate_univariate (fst sx) (snd sx)))).
+Eval vm_compute in ("HistogramDensityMethod.set_reference[detect_batch=1]",
+                    show (diffX (HistogramDensityMethod_set_reference_validate oT 1) validate_reference_min3)
+                      (fun sx => (HistogramDensityMethod_set_reference_validate oT 1 (fst sx) (snd sx), validate_reference_min3 (fst sx) (snd sx)))).
+Eval vm_compute in ("HistogramDensityMethod.set_reference[detect_batch=2]",
+                    show (diffX (HistogramDensityMethod_set_reference_validate oT 2) validate_X_batch)
+                      (fun sx => (HistogramDensityMethod_set_reference_validate oT 2 (fst sx) (snd sx), validate_X_batch (fst sx) (snd sx)))).
+Eval vm_compute in ("CDBD.update", diffY (CDBD_update_guard oT) cdbd_guard).
+Eval vm_compute in ("CDBD.set_reference", diffY (CDBD_set_reference_guard oT) cdbd_guard).
